@@ -110,6 +110,14 @@ CHECKS.update({
         engine="E4-scenarios + E3-trace", ref="DESIGN.md 6 C18"),
 })
 
+CHECKS.update({
+    "C19": dict(
+        text="spec/Supervisor.tla states the supervisor contract (Exec, Terminate = SIGTERM to the group without waiting, Kill = SIGKILL to the group returning once the process is gone, exactly one truthful termination event per process); TLC checks AtMostOneEvent, EventOnlyAfterDeath, DeadStaysDead and, under fairness of event delivery, EveryDeathReported for two processes of every behaviour. Binding: black-box traces of the real supervisor.LocalSupervisor running seeded random concurrent programs of 2-4 real /bin/sh children {exit 0, exit 3, self-signal, trap TERM, ignore TERM, fork children, fork + ignore TERM} with Terminate / Kill (future and past deadlines, unknown names, repeats) are validated by TLC against spec/Trace_Supervisor.tla, with ground truth for 'gone' from pid files and /proc. The same trace specification validates the harness's fake supervisor, i.e. the contract every full-stack check assumes.",
+        note="Trusted: TLC, /bin/sh signal semantics, /proc. Schedules are those the random programs produce.",
+        technique="TLA+ contract spec + TLC; black-box trace validation of the real supervisor with real child processes",
+        engine="E1-tlc + E3-trace", ref="DESIGN.md 6 C19"),
+})
+
 NA = {
 }
 
